@@ -41,7 +41,7 @@ def configs(ctx, nproc):
     out = []
     for k in range(nproc):
         hs = str(k) if k % 5 != 4 else "random"
-        out.append((hs, {"junk_alloc": 0 if k == 0 else rng.randint(0, 400), "junk_elab": 0 if k == 0 else rng.randint(0, 12), "junk_pdk": 0 if k == 0 else rng.randint(0, 3), "gc": k % 3 != 2}))
+        out.append((hs, {"junk_alloc": 0 if k == 0 else rng.randint(0, 400), "junk_elab": 0 if k == 0 else rng.randint(0, 12), "junk_pdk": 0 if k == 0 else rng.randint(0, 3), "junk_gen_spell": 0 if k == 0 else k % 2, "junk_gen_compile": 0 if k == 0 else (k // 2) % 2, "gc": k % 3 != 2}))
     return out
 
 
@@ -71,6 +71,32 @@ def explain(ctx, label, seed, n, ca, cb):
     if pk[0] == pk[1]:
         return "(packages equal on re-run: the difference is in a netlist or depends on a random hash seed)"
     return first_diff(pk[0], pk[1])
+
+
+_attr_cache = {}
+
+
+def attribute(ctx, label, seed, n, ca, cb):
+    """Which kind of unrelated earlier work explains the difference?  Re-runs the two processes with one knob zeroed in both; returns the
+    first knob without which the label's outputs agree (None if no single knob explains it)."""
+    (ha, cfa), (hb, cfb) = ca, cb
+    for knob in ("junk_gen_spell", "junk_gen_compile", "junk_pdk", "junk_elab", "junk_alloc"):
+        if cfa.get(knob, 0) == cfb.get(knob, 0):
+            continue
+        outs = []
+        for hs, cf in ((ha, cfa), (hb, cfb)):
+            c2 = dict(cf)
+            c2[knob] = 0
+            key = (hs, json.dumps(c2, sort_keys=True), seed, n)
+            if key not in _attr_cache:
+                try:
+                    _attr_cache[key] = child(seed, n, c2, hs if hs != "random" else "12345")[0]
+                except Exception:
+                    _attr_cache[key] = None
+            outs.append(_attr_cache[key])
+        if outs[0] is not None and outs[1] is not None and outs[0].get(label) == outs[1].get(label):
+            return knob
+    return None
 
 
 def run(ctx, rec):
@@ -107,6 +133,14 @@ def run(ctx, rec):
             if l.get(label) != base[label]:
                 keys = [k for k in set(base[label]) | set(l.get(label, {})) if base[label].get(k) != l.get(label, {}).get(k)]
                 why = explain(ctx, label, seed, n, base_cfg, cfg) if "pkg" in keys else "(netlist text differs)"
+                # attribute the difference to one kind of earlier work, by re-running both processes without it
+                knob = attribute(ctx, label, seed, n, base_cfg, cfg)
+                if knob:
+                    rec.violation(f"earlier-work-changes-output:{knob}",
+                                  f"design '{label}': outputs {sorted(keys)} differ between process {base_cfg} and process {cfg}, and agree once the "
+                                  f"unrelated earlier work '{knob}' is left out of both",
+                                  case={"kind": "process-pair", "label": label, "seed": seed, "n": n, "a": base_cfg, "b": cfg}, label=label)
+                    break
                 rec.violation(f"output-differs-across-processes:{'+'.join(sorted(keys))}",
                               f"design '{label}': outputs {sorted(keys)} differ between process {base_cfg} and process {cfg}; first difference: {why}",
                               case={"kind": "process-pair", "label": label, "seed": seed, "n": n, "a": base_cfg, "b": cfg}, outputs="+".join(sorted(keys)))
